@@ -166,27 +166,33 @@ def c05c(ctx, tu):
             body = fn.blocks[l["head"]]["succ"][0]
             bad = None
             for front_is_m in (True, False):
-                eff = []
-                def retire(t, it, eff=eff):
-                    eff.append(("retire", repr(t[3])))
-                    return None
-                o = Oracle(calls=dict(ITER, **{
-                    "trompeloeil::list::begin": ("iter", "begin"),
-                    "trompeloeil::sequence_matcher::retire": retire,
-                    "trompeloeil::list_elem::unlink": retire}),
-                    params={0: ("ptr", ("elem", "cur")) if front_is_m else ("ptr", ("elem", "other"))},
-                    members={"trompeloeil::sequence_type::matchers": ("obj", "matchers")})
-                it = Interp(fn, o)
-                res = it.run(start=body, stop_blocks={l["head"]})
-                if front_is_m:
-                    ok = res[0] in ("return", "exit") and not eff
-                    want = "stop without retiring it"
-                else:
-                    ok = res[0] == "stop" and len(eff) == 1
-                    want = "retire the front element and look again"
-                if not ok:
-                    bad = "front %s the matched handle: expected to %s; code does %s with effects %s" % (
-                        "is" if front_is_m else "is not", want, res[0], eff)
+              for sat in (True, False):
+                for opt in (True, False):
+                    eff = []
+                    def retire(t, it, eff=eff):
+                        eff.append(("retire", repr(t[3])))
+                        return None
+                    o = Oracle(calls=dict(ITER, **{
+                        "trompeloeil::list::begin": ("iter", "begin"),
+                        "trompeloeil::sequence_matcher::retire": retire,
+                        "trompeloeil::list_elem::unlink": retire,
+                        # whether the front is satisfied / optional must not matter: everything in front of the
+                        # matched step is passed
+                        "trompeloeil::sequence_matcher::is_satisfied": sat,
+                        "trompeloeil::sequence_matcher::is_optional": opt}),
+                        params={0: ("ptr", ("elem", "cur")) if front_is_m else ("ptr", ("elem", "other"))},
+                        members={"trompeloeil::sequence_type::matchers": ("obj", "matchers")})
+                    it = Interp(fn, o)
+                    res = it.run(start=body, stop_blocks={l["head"]})
+                    if front_is_m:
+                        ok = res[0] in ("return", "exit") and not eff
+                        want = "stop without retiring it"
+                    else:
+                        ok = res[0] == "stop" and len(eff) == 1
+                        want = "retire the front element and look again"
+                    if not ok and bad is None:
+                        bad = "front %s the matched handle (front satisfied=%s, optional=%s): expected to %s; code does %s " \
+                              "with effects %s" % ("is" if front_is_m else "is not", sat, opt, want, res[0], eff)
             # loop guard: while the list is not empty
             c = cfg.cond_of(fn, l["head"])
             t, pol = cond_shape(c)
